@@ -95,12 +95,16 @@ def check(func, classify, spec, start, accepting, erase=(), buffers=None, max_st
     for n_ in walk_local(func):
         if isinstance(n_, ast.For) and isinstance(n_.target, ast.Tuple) and len(n_.target.elts) == 2 and isinstance(n_.target.elts[0], ast.Name) \
                 and isinstance(n_.iter, ast.Call) and isinstance(n_.iter.func, ast.Name) and n_.iter.func.id == "enumerate" and len(n_.iter.args) == 1 and not n_.iter.keywords:
-            nm_ = n_.target.elts[0].id
-            stores = [x for x in walk_local(func) if isinstance(x, ast.Name) and x.id == nm_ and isinstance(x.ctx, ast.Store)]
-            if len(stores) == 1:
-                idx_loops[id(n_)] = nm_
+            idx_loops[id(n_)] = n_.target.elts[0].id
+    # a name qualifies only if every binding of it is such an enumerate index
+    for nm_ in set(idx_loops.values()):
+        stores = [x for x in walk_local(func) if isinstance(x, ast.Name) and x.id == nm_ and isinstance(x.ctx, ast.Store)]
+        heads = [l for l in walk_local(func) if isinstance(l, ast.For) and id(l) in idx_loops and idx_loops[id(l)] == nm_]
+        if len(stores) != len(heads):
+            for l in heads:
+                del idx_loops[id(l)]
     init_flags = {f: None for f in flags}
-    for nm_ in idx_loops.values():
+    for nm_ in set(idx_loops.values()):
         init_flags[nm_] = None
         init_flags["@idx:" + nm_] = True
     init = (g.entry.id, fkey(init_flags), None, start)
@@ -173,6 +177,10 @@ def check(func, classify, spec, start, accepting, erase=(), buffers=None, max_st
                     if mode is None or mode[0] != c[1]:
                         raise AnalysisError("events", func.name, f"append to buffer {c[1]} outside its region (line {st.lineno})")
                     letters = (c[2],) if mode[1] == "COMMIT" else ()
+                elif isinstance(c, tuple) and c and c[0] == "@append*":
+                    if mode is None or mode[0] != c[1]:
+                        raise AnalysisError("events", func.name, f"append to buffer {c[1]} outside its region (line {st.lineno})")
+                    letters = tuple(c[2]) if mode[1] == "COMMIT" else ()
                 elif isinstance(c, tuple) and c and c[0] == "@flush":
                     if mode is None or mode != (c[1], "COMMIT"):
                         raise AnalysisError("events", func.name, f"flush of buffer {c[1]} in mode {mode} (line {st.lineno})")
@@ -181,7 +189,7 @@ def check(func, classify, spec, start, accepting, erase=(), buffers=None, max_st
                     letters = c
                 else:
                     letters = (c,)
-                if letters and mode is not None and mode[1] == "COMMIT" and not (isinstance(c, tuple) and c and c[0] in ("@append",)):
+                if letters and mode is not None and mode[1] == "COMMIT" and not (isinstance(c, tuple) and c and c[0] in ("@append", "@append*")):
                     raise AnalysisError("events", func.name, f"direct event while buffer {mode[0]} is pending (line {st.lineno}): order would differ")
             if forks is not None:
                 for ls, m in forks:
